@@ -76,11 +76,16 @@ RULES = {
 GEN_PROPS = {'C01': PLAIN, 'C02': PLAIN, 'C04': FX, 'C05': FX, 'C06': PLAIN, 'C07': PLAIN, 'C08': PLAIN, 'C10': FX, 'C12': FAIL}
 
 
+# the thorough tier's generated machines are a fixed, soaked set (the scripts vary with the seed, the machines do not):
+# every new machine definition is a new program for the reference acceptor too, and an acceptor gap is an alarm
+THOROUGH_GEN = ['gen:%d' % k for k in list(range(1020, 1032)) + list(range(1040, 1052))]
+
+
 def gen_machines(tier, seed):
-    """generated machine definitions (vf/gen_spec.py): two fixed ones in the quick tier, twelve seed-dependent more in thorough"""
+    """generated machine definitions (vf/gen_spec.py): two fixed ones in the quick tier, a fixed set of 24 more in thorough"""
     out = ['gen:101', 'gen:103']
     if tier == 'thorough':
-        out += ['gen:%d' % (1000 + (seed % 1000) * 20 + k) for k in range(12)]
+        out += THOROUGH_GEN
     return out
 
 
